@@ -2,6 +2,7 @@ package checks
 
 import (
 	"fmt"
+	"time"
 	"strings"
 
 	"github.com/arr-ai/arrai/rel"
@@ -105,31 +106,42 @@ func diffKind(got, want *model.V) string {
 }
 
 // judge compares one transition's outcome with the model's answer (wantErr: the model says error).
-func (c *c01) judge(op, clsA, clsB string, o obs.Outcome, want *model.V, wantErr bool, witness func() string) {
+func (c *c01) judge(op, clsA, clsB string, taint string, o obs.Outcome, want *model.V, wantErr bool, witness func() string) {
 	w := c.w
 	sig := op + "|" + clsA + "|" + clsB + "|"
+	// failures on inputs in a known-broken region of the value space (superimposed sequence
+	// items, multi-valued dictionary keys) are grouped by region, not by operator/shape
+	tainted := func(class, detail string) string { return "taint:" + taint + "|" + class + "|" + detail }
+	fail := func(class, plain, detail, extra string) {
+		if taint != "" {
+			w.Fail(class, tainted(class, detail), witness(), extra)
+		} else {
+			w.Fail(class, plain, witness(), extra)
+		}
+	}
 	switch {
 	case o.Panic != "":
-		w.Fail("panic", o.Panic, witness(), "")
+		fail("panic", o.Panic, o.Panic, "")
 	case o.Err != nil:
 		if !wantErr {
-			w.Fail("wrong", sig+"error-instead-of-value", witness(), core.NormMsg(o.Err.Error()))
+			fail("wrong", sig+"error-instead-of-value", "error-instead-of-value", core.NormMsg(o.Err.Error()))
 		}
 	case wantErr:
-		w.Fail("wrong", sig+"value-instead-of-error", witness(), "")
+		fail("wrong", sig+"value-instead-of-error", "value-instead-of-error", "")
 	default:
 		ri := c.info(o.V)
 		switch {
 		case ri.err != "":
 			if strings.HasPrefix(ri.err, "panic|") {
-				w.Fail("panic", ri.err, witness(), "while enumerating the result")
+				fail("panic", ri.err, ri.err, "while enumerating the result")
 			} else {
-				w.Fail("corrupt-result", "corrupt-result|"+ri.cls+"|"+ri.err, witness(), "")
+				fail("corrupt-result", "corrupt-result|"+ri.cls+"|"+ri.err, ri.err, "")
 			}
 		case !model.Equal(ri.m, want):
-			w.Fail("wrong", sig+diffKind(ri.m, want), witness(), "got "+model.Src(ri.m)+" want "+model.Src(want))
+			k := diffKind(ri.m, want)
+			fail("wrong", sig+k, k, "got "+model.Src(ri.m)+" want "+model.Src(want))
 		case ri.bad != "":
-			w.Fail("corrupt-result", "corrupt-result|"+ri.cls+"|"+ri.bad, witness(), "")
+			fail("corrupt-result", "corrupt-result|"+ri.cls+"|"+ri.bad, ri.bad, "")
 		}
 	}
 }
@@ -236,13 +248,18 @@ func checkC01(w *core.W) {
 	if w.Thorough {
 		k = 3
 	}
+	t0 := time.Now()
 	sp := rsx.New(w, k)
 	sp.BuildGen0()
+	w.Count("ms_build_gen0", time.Since(t0).Milliseconds())
 	ex := rsx.NewExpander(sp)
+	ex.OnePerClass = w.Quick()
 	fromGen := 0
 	if w.Round > 0 {
 		gen0 := len(sp.States)
+		t1 := time.Now()
 		n := ex.LoadRecipes(w.Prev["newstates"])
+		w.Count("ms_load_recipes", time.Since(t1).Milliseconds())
 		w.Count(fmt.Sprintf("states_added_round%d", w.Round), int64(n))
 		_ = gen0
 		fromGen = w.Round
@@ -286,7 +303,7 @@ func checkC01(w *core.W) {
 		}
 		w.AddTransitions(1)
 		w.Eval(a.M.Count() > 0 && b.M.Count() > 0 && c.collide(a, b))
-		c.judge(op, a.Class, b.Class, o, f(a.M, b.M), false, func() string { return "(" + a.Prog + ") " + op + " (" + b.Prog + ")" })
+		c.judge(op, a.Class, b.Class, model.Taint(a.M, b.M, f(a.M, b.M)), o, f(a.M, b.M), false, func() string { return "(" + a.Prog + ") " + op + " (" + b.Prog + ")" })
 		if curA != a.Key && a.Gen > 0 {
 			curA = a.Key
 			w.Sample(map[string]string{"transition": "(" + a.Prog + ") " + op + " (" + b.Prog + ")", "left_shape": a.Key, "right_shape": b.Key})
@@ -294,6 +311,18 @@ func checkC01(w *core.W) {
 	}
 	// run the pairs of each left state as one watchdog-guarded case
 	seen := map[string]bool{}
+	mutated := map[string]bool{}
+	checkMut := func(desc string) {
+		t2 := time.Now()
+		defer func() { w.Count("us_checkmut", time.Since(t2).Microseconds()) }()
+		for _, st := range sp.CheckUnchanged() {
+			if !mutated[st.Key] {
+				mutated[st.Key] = true
+				w.Pollute()
+				w.Fail("state-mutated", "state-mutated|"+st.Class, desc+" changed the existing value ("+st.Prog+")", "was "+st.Key+" now "+rel.VerifShape(st.V))
+			}
+		}
+	}
 	for i, a := range sp.States {
 		if !w.Mine(i) || !a.IsSet() {
 			continue
@@ -319,9 +348,10 @@ func checkC01(w *core.W) {
 					o := obs.Eval(cmpExpr[ci], obs.Scope("a", a.V, "b", b.V))
 					w.AddTransitions(1)
 					w.Eval(nontrivial)
-					c.judge(co.src, a.Class, b.Class, o, model.Bool(co.f(a.M, b.M)), false, func() string { return "(" + a.Prog + ") " + co.src + " (" + b.Prog + ")" })
+					c.judge(co.src, a.Class, b.Class, model.Taint(a.M, b.M), o, model.Bool(co.f(a.M, b.M)), false, func() string { return "(" + a.Prog + ") " + co.src + " (" + b.Prog + ")" })
 				}
 			}
+			checkMut("a binary operator with left operand (" + a.Prog + ")")
 		})
 		if a.Gen < fromGen {
 			continue
@@ -342,26 +372,27 @@ func checkC01(w *core.W) {
 				o := obs.Eval(with, obs.Scope("a", a.V, "b", m.V))
 				w.AddTransitions(1)
 				w.Eval(nontrivial)
-				c.judge("with", a.Class, mcls, o, model.With(a.M, m.M), false, func() string { return "(" + a.Prog + ") with " + m.Src })
+				c.judge("with", a.Class, mcls, model.Taint(model.With(a.M, m.M)), o, model.With(a.M, m.M), false, func() string { return "(" + a.Prog + ") with " + m.Src })
 				if o.OK() {
 					ex.NoteNew(seen, o.V, "with", a, "member:"+m.Src, m.Src, w.Round+1)
 				}
 				o = obs.Eval(without, obs.Scope("a", a.V, "b", m.V))
 				w.AddTransitions(1)
 				w.Eval(nontrivial)
-				c.judge("without", a.Class, mcls, o, model.Without(a.M, m.M), false, func() string { return "(" + a.Prog + ") without " + m.Src })
+				c.judge("without", a.Class, mcls, model.Taint(a.M), o, model.Without(a.M, m.M), false, func() string { return "(" + a.Prog + ") without " + m.Src })
 				if o.OK() {
 					ex.NoteNew(seen, o.V, "without", a, "member:"+m.Src, m.Src, w.Round+1)
 				}
 				o = obs.Eval(memIn, obs.Scope("a", a.V, "b", m.V))
 				w.AddTransitions(1)
 				w.Eval(nontrivial)
-				c.judge("<:", a.Class, mcls, o, model.Bool(a.M.Has(m.M)), false, func() string { return m.Src + " <: (" + a.Prog + ")" })
+				c.judge("<:", a.Class, mcls, model.Taint(a.M), o, model.Bool(a.M.Has(m.M)), false, func() string { return m.Src + " <: (" + a.Prog + ")" })
 				o = obs.Eval(memNotIn, obs.Scope("a", a.V, "b", m.V))
 				w.AddTransitions(1)
 				w.Eval(nontrivial)
-				c.judge("!<:", a.Class, mcls, o, model.Bool(!a.M.Has(m.M)), false, func() string { return m.Src + " !<: (" + a.Prog + ")" })
+				c.judge("!<:", a.Class, mcls, model.Taint(a.M), o, model.Bool(!a.M.Has(m.M)), false, func() string { return m.Src + " !<: (" + a.Prog + ")" })
 			}
+			checkMut("with/without of a member on (" + a.Prog + ")")
 		})
 		w.Case(func() string { return "unaryops|" + a.Class + " ## count/where/=>/^ on (" + a.Prog + ")" }, func() {
 			for ui, u := range c01Unary {
@@ -373,7 +404,7 @@ func checkC01(w *core.W) {
 				o := obs.Eval(unExpr[ui], obs.Scope("x", a.V))
 				w.AddTransitions(1)
 				w.Eval(a.M.Count() > 1)
-				c.judge(u.src, a.Class, "", o, want, wantErr, func() string { return strings.ReplaceAll(u.src, "x", "("+a.Prog+")") })
+				c.judge(u.src, a.Class, "", model.Taint(a.M, want), o, want, wantErr, func() string { return strings.ReplaceAll(u.src, "x", "("+a.Prog+")") })
 				if o.OK() {
 					ex.NoteNew(seen, o.V, "c01:"+u.src, a, "", "", w.Round+1)
 				}
@@ -384,6 +415,7 @@ func checkC01(w *core.W) {
 					ex.NoteNew(seen, o.V, op, a, "", "", w.Round+1)
 				}
 			}
+			checkMut("a unary operator on (" + a.Prog + ")")
 		})
 	}
 	if w.Shard == 0 && w.Round == 0 {
